@@ -1,2 +1,55 @@
 #![allow(warnings, clippy::all, clippy::pedantic, clippy::nursery)]
+//@ module: chunker::fixed_size
 use super::*;
+use crate::error::verif_harness as vh;
+use crate::chunker::rabin::verif_harness::FragReader;
+
+//@ harness: c06_fixed_size_partition
+//@ prop: C06
+//@ tier: quick
+//@ timeout: 900
+//@ mem: 10
+//@ kernel: chunker::fixed_size::ChunkIter::{new,next}
+//@ bound: chunk size symbolic 2..=4; stream length symbolic 0..=6, all bytes symbolic; symbolic read fragmentation; size_hint 0; four calls of next() (at most 3 chunks + end); unwind 12
+//@ oracle: lossless, every chunk but the last has exactly `size` bytes, last is 1..=size bytes, no empty chunk, iteration ends exactly at end of stream
+//@ assume: chunk size >= 1 (size 0 is refused at configuration time: c18_config_accepted_is_usable)
+#[kani::proof]
+#[kani::unwind(12)]
+#[kani::stub(std::backtrace::Backtrace::capture, crate::error::verif_harness::stub_backtrace_capture)]
+pub(crate) fn c06_fixed_size_partition() {
+    const N: usize = 6;
+    let size: usize = kani::any();
+    kani::assume(size >= 2 && size <= 4);
+    let data: [u8; N] = kani::any();
+    let len: usize = kani::any();
+    kani::assume(len <= N);
+    let mut it = ChunkIter::new(size, FragReader::<N, false> { data, len, pos: 0, intr: 0 }, 0);
+    let mut start = 0usize;
+    let mut n = 0usize;
+    let mut done = false;
+    let mut k = 0;
+    while k < 4 {
+        if !done {
+            match it.next() {
+                None => { done = true; }
+                Some(Ok(v)) => {
+                    assert!(!v.is_empty() && v.len() <= size);
+                    assert!(start + v.len() <= len);
+                    if start + v.len() < len { assert!(v.len() == size); }
+                    let mut i = 0;
+                    while i < v.len() { assert!(v[i] == data[start + i]); i += 1; }
+                    start += v.len();
+                    n += 1;
+                    std::mem::forget(v);
+                }
+                Some(Err(e)) => { std::mem::forget(e); assert!(false); }
+            }
+        }
+        k += 1;
+    }
+    assert!(done);
+    assert!(start == len);
+    kani::cover!(n == 3, "three chunks");
+    kani::cover!(len == 0, "empty stream");
+    std::mem::forget(it);
+}
